@@ -40,7 +40,7 @@ def r_processnode(root):
     MANY, ONE, OPT = consts.get("MULT_ONEORMORE"), consts.get("MULT_ONE"), consts.get("MULT_OPTIONAL")
     TERM = HS({".kind": "cls", ".__name__": "Terminal"})
     REM = HS({".kind": "cls", ".__name__": "RegExMatch"})
-    def build(tools=False, double=False, regexp_group=False, falsy_part=False):
+    def build(tools=False, double=False, regexp_group=False, falsy_part=False, plain_many_ref=False):
         prov = HS({".kind": "callable", ".tag": "rrel provider of the attribute"})
         def attr(name, cls, mult=ONE, cont=True, ref=False, boolasg=False, provider=None, mrule=None):
             return HS({".kind": "metaattr", ".name": name, ".cls": cls, ".mult": mult, ".cont": cont, ".ref": ref, ".bool_assignment": boolasg, ".scope_provider": provider, ".match_rule_name": mrule})
@@ -85,6 +85,7 @@ def r_processnode(root):
                                                                     N("Item", 129, 129, [A("plain", "name", 129, 129, [T("ID", "i9", 129)])], cItem)], cKindM)])]
         kids.append(A("plain", "num", 131, 135, [N("Val", 131, 135, [RT("STRICTFLOAT", "-1.5", 131, 3, "1.5", "([+-]?((\\d+\\.\\d*)|(\\.\\d+)))")], cVal)]))       # a match rule made of one regex token with several groups
         if falsy_part: kids.append(A("plain", "zval", 136, 139, [N("Val", 136, 139, [T("STRING", "x", 136), T("INT", "0", 137), T("STRING", "y", 138)], cVal)]))       # a match rule one of whose parts converts to a falsy value (0)
+        if plain_many_ref: kids.append(A("plain", "refs", 136, 138, [T("FQN", "i2", 136)]))        # a reference assigned with '=' to a many-valued attribute:  ('uses' refs=[Item|FQN])*
         if double: kids.append(A("plain", "name", 136, 139, [T("ID", "again", 136)]))
         tree = N("Model", 0, 140, kids, cModel)
         processed = []
@@ -155,6 +156,12 @@ def r_processnode(root):
     if len(xr) == 5 and all(isinstance(x[2], dict) for x in xr):
         rep("C32", "C32.f", "a queued reference carries the provider and match rule of its attribute", xr[0][2].get(".scope_provider") is prov and xr[0][2].get(".match_rule_name") == "ID" and xr[1][2].get(".scope_provider") is None and xr[1][2].get(".match_rule_name") == "FQN",
             "the reference of attribute first carries provider %s and match rule %r, the ones of refs %s / %r; documented: the grammar RREL provider and match rule ID of first, no provider and match rule FQN for refs" % ("of the attribute" if xr[0][2].get(".scope_provider") is prov else xr[0][2].get(".scope_provider"), xr[0][2].get(".match_rule_name"), xr[1][2].get(".scope_provider"), xr[1][2].get(".match_rule_name")))
+    envr, pr_, _mr, _Cr, _prr, _procr = build(plain_many_ref=True)
+    kr, mr = run(envr)
+    xrr = pr_["._crossrefs"]
+    okr = kr == "ret" and len(xrr) == 6 and xd(xrr[5])[:3] == ("i2", 136, 138) and isinstance(xrr[5][1], dict) and xrr[5][1].get(".name") == "refs" and xrr[5][0] is mr and g(mr, "refs") == []
+    for prp in ("C07", "C02", "C08"):
+        rep(prp, "C08.e", "a reference assigned with '=' to a many-valued attribute is queued like every other reference", okr, "a reference written  refs=[Item|FQN]  after  refs+=...  (plain assignment to a many-valued attribute) %s: %d references are queued (documented 6, the last one i2 at 136..138 for attribute refs of the model) and the attribute holds %r before resolution (documented []: names are never stored in place of objects)" % ("is built" if kr == "ret" else "raises %s" % mr.cls, len(xrr), g(mr, "refs") if kr == "ret" else None))
     rep("C05", "C05.g", "single-valued reference attributes stay unset until resolution", g(model, "first") is None and g(model, "refs") == [], "before resolution the reference attributes hold %r / %r; documented None / [] (the references are queued, not stored)" % (g(model, "first"), g(model, "refs")))
     tab = parser["._instances"].get(id(C["Item"]), {})
     rep("C07", "C07.f", "named objects are registered per class", isinstance(tab, dict) and set(tab) == {"i1", "i2"} and (not objs_ok or (tab["i1"] is items[0] and tab["i2"] is items[1])), "the parser's table of named Item objects holds %s; documented i1 and i2 (the default scope provider without multi-meta-model support looks names up there)" % sorted(tab))
